@@ -1,7 +1,116 @@
-//! Further operations
-use serde_json::Value;
+//! Conversions: binary floats (C14), integers (C15)
+use std::convert::TryFrom;
+
+use bigdecimal::{BigDecimal, FromPrimitive, ToPrimitive};
+use num_bigint::{BigInt, ToBigInt};
+use serde_json::{json, Value};
+
+use crate::wire::*;
+
+fn bits64(v: &Value) -> u64 {
+    json_to_bigint(v).to_u64().expect("u64 bits")
+}
+fn dec_or_err<E>(r: Result<BigDecimal, E>) -> Value {
+    match r {
+        Ok(x) => json!({"d": dec_to_json(&x)}),
+        Err(_) => json!({"err": "conversion"}),
+    }
+}
+fn dec_or_none(r: Option<BigDecimal>) -> Value {
+    match r {
+        Some(x) => json!({"d": dec_to_json(&x)}),
+        None => json!({"none": 1}),
+    }
+}
+fn int_out<T: Into<BigInt>>(r: Option<T>) -> Value {
+    match r {
+        Some(x) => json!({"n": bigint_to_json(&x.into())}),
+        None => json!({"none": 1}),
+    }
+}
 
 pub fn exec_more(ev: &Value) -> Value {
     let op = ev["op"].as_str().expect("op");
-    panic!("HARNESS: unknown op {}", op)
+    let form = ev.get("form").and_then(|f| f.as_str()).unwrap_or("");
+    match op {
+        "from_float" => {
+            let bits = bits64(&ev["bits"]);
+            match form {
+                "try_from_f64" => dec_or_err(BigDecimal::try_from(f64::from_bits(bits))),
+                "from_f64" => dec_or_none(BigDecimal::from_f64(f64::from_bits(bits))),
+                "try_from_f32" => dec_or_err(BigDecimal::try_from(f32::from_bits(bits as u32))),
+                "from_f32" => dec_or_none(BigDecimal::from_f32(f32::from_bits(bits as u32))),
+                _ => panic!("HARNESS: unknown from_float form {}", form),
+            }
+        }
+        "to_float" => {
+            let a = json_to_dec(&ev["a"]);
+            let f = match form {
+                "val" => a.to_f64(),
+                "dref" => a.to_ref().to_f64(),
+                _ => panic!("HARNESS: unknown to_float form {}", form),
+            };
+            match f {
+                Some(f) => json!({"bits": u128_to_json(f.to_bits() as u128)}),
+                None => json!({"none": 1}),
+            }
+        }
+        "float_roundtrip" => {
+            let bits = bits64(&ev["bits"]);
+            let w = ev["w"].as_u64().unwrap();
+            let d = if w == 64 { BigDecimal::try_from(f64::from_bits(bits)) } else { BigDecimal::try_from(f32::from_bits(bits as u32)) };
+            match d {
+                Err(_) => json!({"err": "conversion"}),
+                Ok(d) => match form {
+                    "to_f64" => match d.to_f64() { Some(f) => json!({"bits": u128_to_json(f.to_bits() as u128)}), None => json!({"none": 1}) },
+                    "to_f64_dref" => match d.to_ref().to_f64() { Some(f) => json!({"bits": u128_to_json(f.to_bits() as u128)}), None => json!({"none": 1}) },
+                    "to_f32" => match d.to_f32() { Some(f) => json!({"bits": u128_to_json(f.to_bits() as u128), "out32": true}), None => json!({"none": 1}) },
+                    _ => panic!("HARNESS: unknown float_roundtrip form {}", form),
+                },
+            }
+        }
+        "to_int" => {
+            let a = json_to_dec(&ev["a"]);
+            let via_ref = ev.get("via").and_then(|v| v.as_str()) == Some("dref");
+            match (form, via_ref) {
+                ("i64", false) => int_out(a.to_i64()),
+                ("i64", true) => int_out(a.to_ref().to_i64()),
+                ("i128", false) => int_out(a.to_i128()),
+                ("i128", true) => int_out(a.to_ref().to_i128()),
+                ("u64", false) => int_out(a.to_u64()),
+                ("u64", true) => int_out(a.to_ref().to_u64()),
+                ("u128", false) => int_out(a.to_u128()),
+                ("u128", true) => int_out(a.to_ref().to_u128()),
+                ("bigint", _) => int_out(a.to_bigint()),
+                _ => panic!("HARNESS: unknown to_int form {}", form),
+            }
+        }
+        "is_integer" => json!({"b": json_to_dec(&ev["a"]).is_integer()}),
+        "from_int" => {
+            let v = json_to_bigint(&ev["v"]);
+            macro_rules! conv {
+                ($t:ty, $via:ident) => {{
+                    let x: $t = if <$t>::MIN == 0 { <$t>::try_from(v.to_u128().expect("u128")).expect("range") } else { <$t>::try_from(v.to_i128().expect("i128")).expect("range") };
+                    let _ = stringify!($via);
+                    json!({"d": dec_to_json(&BigDecimal::from(x))})
+                }};
+            }
+            match form {
+                "i8" => conv!(i8, from), "i16" => conv!(i16, from), "i32" => conv!(i32, from), "i64" => conv!(i64, from), "i128" => conv!(i128, from),
+                "u8" => conv!(u8, from), "u16" => conv!(u16, from), "u32" => conv!(u32, from), "u64" => conv!(u64, from), "u128" => conv!(u128, from),
+                "bigint" => json!({"d": dec_to_json(&BigDecimal::from(v))}),
+                "rbigint" => {
+                    // From<&BigInt> exists through BigDecimalRef
+                    let r: bigdecimal::BigDecimalRef = (&v).into();
+                    json!({"d": dec_to_json(&r.to_owned())})
+                }
+                "from_i64" => dec_or_none(BigDecimal::from_i64(v.to_i64().expect("i64"))),
+                "from_u64" => dec_or_none(BigDecimal::from_u64(v.to_u64().expect("u64"))),
+                "from_i128" => dec_or_none(BigDecimal::from_i128(v.to_i128().expect("i128"))),
+                "from_u128" => dec_or_none(BigDecimal::from_u128(v.to_u128().expect("u128"))),
+                _ => panic!("HARNESS: unknown from_int form {}", form),
+            }
+        }
+        _ => crate::exec8::exec_more(ev),
+    }
 }
